@@ -144,9 +144,25 @@ func cmdCheck(args []string) {
 	nObl, nDis := 0, 0
 	solverTime := 0.0
 	backends := map[string]int{}
+	retCov := map[string][2]int{}
+	for _, o := range all {
+		if o.Cover && o.Label == "return" {
+			c := retCov[o.Func]
+			c[0]++
+			if o.Result == "unsat" {
+				c[1]++
+			}
+			retCov[o.Func] = c
+		}
+	}
+	for f, c := range retCov {
+		if c[0] > 0 && c[0] == c[1] {
+			vacuous = append(vacuous, f+"#cover.return (every returning path contradictory)")
+		}
+	}
 	for _, o := range all {
 		if o.Cover {
-			if o.Result == "unsat" {
+			if o.Result == "unsat" && o.Label != "return" {
 				vacuous = append(vacuous, o.Name)
 			}
 			continue
